@@ -276,12 +276,23 @@ type vLkDerived struct {
 	afterTerm   int // update events after a terminate event
 	hops        int
 	divDrops    int // entries dropped by the diversity rule (monitor's computation)
+	waitSrc     map[peer.ID]peer.ID          // Source field of the (last) waiting event per peer
+	heardFrom   map[peer.ID]map[peer.ID]bool // cause of a response event (local node for the seeding update) -> peers it listed as heard
 }
 
 func vDerive(res *vLkResult) *vLkDerived {
 	d := &vLkDerived{L: map[peer.ID]bool{}, F: map[peer.ID]bool{}, Q: map[peer.ID]bool{}, W: map[peer.ID]int{},
-		respHeard: map[peer.ID][]peer.ID{}, respKind: map[peer.ID]string{}}
+		respHeard: map[peer.ID][]peer.ID{}, respKind: map[peer.ID]string{},
+		waitSrc: map[peer.ID]peer.ID{}, heardFrom: map[peer.ID]map[peer.ID]bool{}}
 	n := res.n
+	noteHeard := func(cause peer.ID, heard []peer.ID) {
+		if d.heardFrom[cause] == nil {
+			d.heardFrom[cause] = map[peer.ID]bool{}
+		}
+		for _, p := range heard {
+			d.heardFrom[cause][p] = true
+		}
+	}
 	seenFirst := false
 	for _, e := range res.Events {
 		ev := e.Ev
@@ -296,6 +307,11 @@ func vDerive(res *vLkResult) *vLkDerived {
 		if ev.Request != nil {
 			for _, p := range vEvPeers(ev.Request.Waiting) {
 				d.W[p]++
+				if ev.Request.Source != nil {
+					d.waitSrc[p] = ev.Request.Source.Peer
+				} else {
+					d.waitSrc[p] = ""
+				}
 			}
 		}
 		if ev.Response != nil {
@@ -306,6 +322,7 @@ func vDerive(res *vLkResult) *vLkDerived {
 				for _, p := range heard {
 					d.L[p] = true
 				}
+				noteHeard(n.Self, heard)
 				continue
 			}
 			cause := peer.ID("")
@@ -317,6 +334,7 @@ func vDerive(res *vLkResult) *vLkDerived {
 					d.L[p] = true
 				}
 			}
+			noteHeard(cause, heard)
 			for _, p := range vEvPeers(ev.Response.Queried) {
 				d.Q[p] = true
 				d.respKind[p] = "queried"
@@ -423,6 +441,39 @@ func vOracleC01(c *vh.Case, res *vLkResult) *vLkDerived {
 		if len(d.F) > 0 {
 			c.Check(len(bad) == 0, "cancelled-result-not-failed", "cancelled lookup returned peers already reported unreachable: %v", bad)
 		}
+		// no omission, cancelled or not: an update event that WAS received proves its heard peers entered the
+		// lookup's peer set (publication precedes insertion in the same goroutine), and a peer is only ever marked
+		// unreachable after a dial or a request to it returned an error (context errors included), all of which are
+		// in the dial / wire logs. So a received-heard peer without any failed dial or request is a learned,
+		// non-failed peer: it is returned, or K nearer peers are.
+		wireFailed := map[peer.ID]bool{}
+		for _, de := range res.Dials {
+			if de.Err != "" {
+				wireFailed[de.Peer] = true
+			}
+		}
+		for _, e := range res.Log {
+			if e.Kind == vsim.EvReply && e.Err != "" {
+				wireFailed[e.Peer] = true
+			}
+		}
+		inRes := map[peer.ID]bool{}
+		for _, p := range R {
+			inRes[p] = true
+		}
+		var omitted []string
+		tk := vsim.KadID([]byte(sc.Key))
+		for p := range d.L {
+			if p == n.Self || inRes[p] || wireFailed[p] || d.F[p] {
+				continue
+			}
+			if len(R) >= K && vsim.CmpDist(tk, vsim.KadID([]byte(R[len(R)-1])), vsim.KadID([]byte(p))) < 0 {
+				continue
+			}
+			omitted = append(omitted, n.Name(p))
+		}
+		sort.Strings(omitted)
+		c.Check(len(omitted) == 0, "cancelled-result-no-omission", "cancelled lookup returned %v (K=%d) but omitted learned peers with no failed dial or request that are nearer than its farthest result (or it returned fewer than K): %v", n.Names(R), K, omitted)
 		return d
 	}
 	// (2) R = the min(K,|L\F|) nearest of L\F
@@ -469,6 +520,10 @@ func vOracleC01(c *vh.Case, res *vLkResult) *vLkDerived {
 		inR[p] = true
 	}
 	for p, w := range d.W {
+		// the Source of a waiting event is "the peer who informed us about" p: the local node for a seed, else a peer
+		// whose processed response listed p (the event stream is complete for an uncancelled lookup)
+		src := d.waitSrc[p]
+		c.Check(d.heardFrom[src][p], "waiting-source-named-peer", "waiting event for %s names source %s, but no update caused by that source listed %s as heard", n.Name(p), n.Name(src), n.Name(p))
 		c.Check(w == 1, "waiting-once", "%d waiting events for %s", w, n.Name(p))
 		c.Check(len(reqs[p])+len(dials[p]) >= 1, "waiting-then-contact", "waiting event for %s but neither dial nor request was made", n.Name(p))
 	}
@@ -596,7 +651,7 @@ func vLkDescribe(c *vh.Case, res *vLkResult, d *vLkDerived) {
 func TestVerif_C01_lookup(t *testing.T) {
 	vh.Run(t, vh.Spec{Prop: "C01", Unit: "lookup", Quick: 3000, Thorough: 60000, CostMs: 25,
 		Rule: "PRNG networks (N 1-500, thorough up to 2000; K in {1,2,3,5,8,20}, alpha in {1,2,3,10}, beta in {1,2,3,K}; knowledge full/kbucket/sparse; 0-60% peers failing by dial/request/silence; liars adding self, duplicates, strangers, 200-entry lists; optional pure query filter; 20% cancelled at a PRNG instant), one GetClosestPeers each in virtual time; oracle over lookup events + simulated wire log; non-trivial = uncancelled, >= 2 hops and (>= 1 failure or more than K learned); distinct by (shape, behaviour mix, response arrival order)",
-		Clauses: []string{"at-most-k", "ascending", "seeds-are-k-nearest-of-table", "result-is-k-nearest-of-learned", "result-not-failed", "heard-is-filtered-answer", "unreachable-iff-failed", "waiting-then-contact", "asked-at-most-once", "cancelled-result-learned", "cancelled-result-not-failed"}},
+		Clauses: []string{"at-most-k", "ascending", "seeds-are-k-nearest-of-table", "result-is-k-nearest-of-learned", "result-not-failed", "heard-is-filtered-answer", "unreachable-iff-failed", "waiting-then-contact", "asked-at-most-once", "cancelled-result-learned", "cancelled-result-not-failed", "cancelled-result-no-omission", "waiting-source-named-peer"}},
 		func(c *vh.Case) {
 			sc := vGenLkScenario(c, false)
 			vSelfCheckDistance(c)
